@@ -192,9 +192,8 @@ def main():
     for p, d in by_prog.items():
         sigs = set(v[0] for v in d.values())
         if len(sigs) > 1:
-            rep.failed_ob(Finding("C12", f"C12/dfa-identity/{p}", f"dfa-identity|{p}", f"{p}: the compiled state machine differs between representation option sets {sorted(d)}: {d}",
+            rep.bounded_violation(Finding("C12", f"C12/dfa-identity/{p}", f"dfa-identity|{p}", f"{p}: the compiled state machine differs between representation option sets {sorted(d)}: {d}",
                                   replay={"program": p, "signatures": d}, replayed=True))
-            rep.obligations -= 1
         else:
             nsame += 1
     rep.bounded_count("compiled DFA identical across representation option sets (programs)", nsame)
